@@ -149,7 +149,7 @@ def scan_footprint(prog, text):
     want_len = lead + len(src)
     if len(got) < want_len:
         off = len(got) - lead
-        return "cut at %r inside %s" % (src[off], py_context(src, off))
+        return "cut inside %s" % py_context(src, off)
     rest = raw[want_len:]
     if len(got) > want_len + (len(rest) - len(rest.lstrip())):
         return "ran past the end of the expression"
